@@ -1,0 +1,38 @@
+//! Verification hooks (only compiled with `--features verif`).
+//!
+//! A thread-local step counter that is bumped every time the lexer produces a
+//! token and every time the parser opens a node. When a budget is set and the
+//! counter exceeds it, the current thread panics with a fixed message, so that
+//! a grammar loop that stopped consuming input becomes a deterministic failure.
+use std::cell::Cell;
+
+pub const BUDGET_EXCEEDED: &str = "verif: parser step budget exceeded";
+
+thread_local! {
+    static STEPS: Cell<u64> = const { Cell::new(0) };
+    static BUDGET: Cell<u64> = const { Cell::new(u64::MAX) };
+}
+
+/// Resets the counter and sets the budget (`u64::MAX` = unlimited).
+pub fn reset(budget: u64) {
+    STEPS.with(|s| s.set(0));
+    BUDGET.with(|b| b.set(budget));
+}
+
+pub fn steps() -> u64 {
+    STEPS.with(|s| s.get())
+}
+
+#[inline]
+pub(crate) fn step() {
+    let n = STEPS.with(|s| {
+        let n = s.get() + 1;
+        s.set(n);
+        n
+    });
+    if n > BUDGET.with(|b| b.get()) {
+        // disarm, so that unwinding code cannot panic a second time
+        BUDGET.with(|b| b.set(u64::MAX));
+        panic!("{}", BUDGET_EXCEEDED);
+    }
+}
